@@ -327,9 +327,10 @@ pub fn run(args: &Args) -> Report {
         ks: vec![0, 1],
         env: 0,
         fault: 0,
-        total_wall: Duration::from_secs(if thorough { 1500 } else { 40 }),
+        total_wall: Duration::from_secs(if thorough { 1500 } else { 50 }),
         max_execs_per_case: 5_000,
         required_witnesses: W_TIMEOUT | W_SURVIVED | W_PING_SEEN | W_DISABLED | W_CLAMPED | W_RESOLVED_AFTER_TIMEOUT | W_LATE_PONG,
+        adaptive: thorough,
         witness_names: &[("timeout_detected", W_TIMEOUT), ("survived_to_horizon", W_SURVIVED), ("ping_seen", W_PING_SEEN), ("keepalive_disabled_case", W_DISABLED), ("timeout_clamped_to_interval", W_CLAMPED), ("operations_resolved_after_timeout", W_RESOLVED_AFTER_TIMEOUT), ("late_pong_tolerated", W_LATE_PONG)],
     };
     rep.rule = "psim in virtual time: one real endpoint whose Options come from the public builders, its real task future polled by hand inside a paused-clock tokio runtime (timers fire by auto-advance, TimestampProvider reads the same clock), a raw peer answering Ping k after a scripted delay; EVERY history of R delays over {0, T/2, T, T+10 ms, never} followed by a silent or prompt tail, for every (I,T) pair incl. T<I (clamped), T=I, T=NONE and I=NONE; timer-vs-pong races at equal instants are scheduling choices (<= k deviations). Oracle: Ping k leaves at k*I; disabled => no Ping, no end; the task ends only with KeepaliveTimeout, at a time t with last_pong+T_eff <= t <= last_pong+T_eff+I; never when every Ping was answered within T; no silent gap > T_eff+I survives; after the timeout the pending accept/get_datagram resolve although the transport stays silent".into();
